@@ -2,6 +2,7 @@ import Proofs.C16Merge
 import Proofs.C16Nodup
 import Proofs.C16Box
 import Proofs.ChipBorderLemmas
+import Proofs.SphHullLemmas
 import Mathlib.Tactic.NormNum
 import Mathlib.Algebra.Order.Field.Rat
 
@@ -802,7 +803,7 @@ theorem border_consecutive_distinct (r : Rect K) (nx ny : ℕ) (hn : nx ≠ 0) (
 /-- **counter-clockwise**: the signed shoelace area of the border polygon is `+(hx − lx)(hy − ly)` —
 for every rectangle and all interval counts -/
 theorem border_ccw (r : Rect K) (nx ny : ℕ) (hn : nx ≠ 0) :
-    shoelace2 (chipBorder r nx ny) = 2 * ((r.hx - r.lx) * (r.hy - r.ly)) ∧
+    Chip.shoelace2 (chipBorder r nx ny) = 2 * ((r.hx - r.lx) * (r.hy - r.ly)) ∧
     signedArea (chipBorder r nx ny) = (r.hx - r.lx) * (r.hy - r.ly) := by
   have h := shoelace2_rectWalk r.lx r.hx r.ly r.hy (interior (linspace r.lx r.hx nx))
     (interior (linspace r.ly r.hy ny))
@@ -960,10 +961,510 @@ example : linspace (K := ℚ) 2 2 3 = [2, 2, 2, 2] := by decide +kernel
 -- (c) the border of `[0, 3] × [0, 2]` with 3 and 2 intervals: 2·4 + 2·1 + 1 = 11 points, counter-clockwise
 example : chipBorder (K := ℚ) ⟨0, 3, 0, 2⟩ 3 2 =
     [(0,0),(1,0),(2,0),(3,0),(3,1),(3,2),(2,2),(1,2),(0,2),(0,1),(0,0)] := by decide +kernel
-example : shoelace2 (chipBorder (K := ℚ) ⟨0, 3, 0, 2⟩ 3 2) = 12 := by decide +kernel
+example : Chip.shoelace2 (chipBorder (K := ℚ) ⟨0, 3, 0, 2⟩ 3 2) = 12 := by decide +kernel
 -- the whole method: two sources without bounding box, `stepsize = 4`
 example : (chipPolygon (K := ℚ) none (some 4) [(7/2, 1), (36/5, 5/2)]).toOption.map (fun p => (p.nintx, p.ninty, p.pts)) =
     some (2, 2, [(-1/2,-1/2),(7/2,-1/2),(15/2,-1/2),(15/2,3/2),(15/2,7/2),(7/2,7/2),(-1/2,7/2),(-1/2,3/2),(-1/2,-1/2)]) := by
+  decide +kernel
+
+end TW.C16
+
+/-!
+### the spherical part of `RefCatalog._calc_cat_convex_hull` (`Model/SphHull.lean`, namespace `TW.Sph`)
+
+Model: `planarRot` / `planarRot3d` = `planar_rot_3d` (its three matrices), `eulerRot cr sr cd sd` =
+`multi_dot(rotm[::-1])` = `P₁(dec_ref) · P₂(ra_ref)` from the cosines and sines of the reference direction,
+`invEulerRot` = `inv(euler_rot)` (the Gauss–Jordan model of C17), `meanVec`, `refDir` = `_C2S(mean)`,
+`project` = rotation + `x = yr/xr, y = zr/xr`, `planeFootprint` = `convex_hull(…, min_separation)` + the branch
+on the number of vertices, `lift` / `backProject` = `inv_euler_rot · (1, xv, yv)` (direction vectors, not
+normalised — `_C2S` only uses the direction), `footprintV`, `footprintCS`, `refCatFootprint` = the whole method.
+
+Vocabulary: `triple a b c = a · (b × c)`; `SphAllLeft v l` — the direction `v` has a non-negative triple product
+with every edge (consecutive pair) of the vertex list `l`, i.e. it lies in the closed hemisphere to the left of
+every great-circle arc of the polygon walked in list order (for a counter-clockwise convex spherical polygon:
+`v` is inside or on it); `SphInsideCW v l` — strictly negative with every edge (the small boxes are listed
+clockwise); `SphTurnsLeft l` / `SphTurnsRight l` — every consecutive triple of vertices has a positive /
+negative triple product (counter-clockwise / clockwise seen from OUTSIDE the sphere: with `x` towards the
+viewer, `(y, z)` are the usual right-handed plane coordinates and `triple (1,a) (1,b) (1,c) = cross a b c`).
+`K` is any linearly ordered field; statements with `c2s` / trigonometry or the two-source box are over `ℝ`.
+Rounding, `spherical_geometry` and the conversion of the vertex directions to RA/DEC are outside.
+-/
+namespace TW.C16
+open TW.Sph
+section sph
+variable {K : Type} [Field K] [LinearOrder K] [IsStrictOrderedRing K] [HasSqrt K]
+
+/-! #### (a) the rotation -/
+
+/-- `euler_rot` is a rotation: orthogonal, determinant 1; its rows are the reference direction, the local
+east and the local north -/
+theorem euler_rot_rotation (cr sr cd sd : K) (hr : cr * cr + sr * sr = 1) (hd : cd * cd + sd * sd = 1) :
+    (eulerRot cr sr cd sd).Orth ∧ Sph.det (eulerRot cr sr cd sd) = 1 ∧
+    eulerRot cr sr cd sd = ⟨cd * cr, cd * sr, sd, -sr, cr, 0, -(sd * cr), -(sd * sr), cd⟩ ∧
+    eulerRot cr sr cd sd = (planarRot cd sd 1).mul (planarRot cr sr 2) :=
+  ⟨eulerRot_orth cr sr cd sd hr hd, eulerRot_det cr sr cd sd hr hd, eulerRot_entries cr sr cd sd, rfl⟩
+
+/-- `planar_rot_3d`: a rotation for each of the three axes, `ValueError` for every other axis -/
+theorem planar_rot_3d_spec (c s : K) (h : c * c + s * s = 1) (axis : ℕ) :
+    (∀ hax : axis < 3, planarRot3d c s axis = .ok (planarRot c s ⟨axis, hax⟩) ∧
+      (planarRot c s ⟨axis, hax⟩).Orth ∧ Sph.det (planarRot c s ⟨axis, hax⟩) = 1) ∧
+    (3 ≤ axis → planarRot3d c s axis = .error .badAxis) :=
+  ⟨fun hax => ⟨(planarRot3d_spec c s axis).1 hax, planarRot_orth c s h _, planarRot_det c s h _⟩,
+   (planarRot3d_spec c s axis).2⟩
+
+/-- `inv_euler_rot = inv(euler_rot)`: whatever the elimination returns is the TRANSPOSE, and it does return
+for every singularity threshold below a positive bound (the smallest pivot) -/
+theorem inv_euler_rot_is_transpose (cr sr cd sd : K) (hr : cr * cr + sr * sr = 1) (hd : cd * cd + sd * sd = 1) :
+    (∀ eps x, 0 < eps → invEulerRot eps (eulerRot cr sr cd sd) = .ok x → x = (eulerRot cr sr cd sd).transpose) ∧
+    ∃ eps0 : K, 0 < eps0 ∧ ∀ eps, 0 < eps → eps ≤ eps0 →
+      invEulerRot eps (eulerRot cr sr cd sd) = .ok (eulerRot cr sr cd sd).transpose := by
+  have ho := eulerRot_orth cr sr cd sd hr hd
+  refine ⟨fun eps x heps h => invEulerRot_eq_transpose eps heps _ x ho h, ?_⟩
+  obtain ⟨eps0, h0, htot⟩ := invEulerRot_total (eulerRot cr sr cd sd) (eulerRot_det cr sr cd sd hr hd)
+  refine ⟨eps0, h0, fun eps heps hle => ?_⟩
+  obtain ⟨x, hx⟩ := htot eps hle
+  rw [hx, invEulerRot_eq_transpose eps heps _ x ho hx]
+
+/-- the reference direction `(cos d cos a, cos d sin a, sin d)` is sent to the tangent point `(1, 0, 0)`, and
+the first rotated coordinate of any vector is its scalar product with the reference direction -/
+theorem euler_rot_tangent_point (cr sr cd sd : K) (hr : cr * cr + sr * sr = 1) (hd : cd * cd + sd * sd = 1) :
+    (eulerRot cr sr cd sd).mulVec ⟨cd * cr, cd * sr, sd⟩ = ⟨1, 0, 0⟩ ∧
+    ∀ v : V3 K, ((eulerRot cr sr cd sd).mulVec v).x = Sph.dot v ⟨cd * cr, cd * sr, sd⟩ :=
+  ⟨eulerRot_refdir cr sr cd sd hr hd, eulerRot_x cr sr cd sd⟩
+
+/-! #### (b) planar side test = great-circle side test -/
+
+/-- **key identity**: the triple product of three lifted points `(1, ·)` is the planar orientation test -/
+theorem lifted_triple_is_cross (a b p : Pt K) : triple (lift a) (lift b) (lift p) = cross a b p :=
+  triple_lift a b p
+
+/-- rotations preserve triple products (`det = 1`); a general matrix scales them by its determinant -/
+theorem triple_rotation_invariant (r : M3 K) (a b c : V3 K) :
+    triple (r.mulVec a) (r.mulVec b) (r.mulVec c) = Sph.det r * triple a b c :=
+  triple_mulVec r a b c
+
+/-- for a source direction `v` in the open hemisphere `xr > 0` of a rotation `r`: `v` is on the left of the
+planar edge `(a, b)` iff it is on the positive side of the great circle through the back-projected vertices
+(the scale factor is `xr`), and likewise for "on or to the left" -/
+theorem sph_side_iff_planar_side (r : M3 K) (hr : r.Orth) (hdet : Sph.det r = 1) (a b : Pt K) (v : V3 K)
+    (hx : 0 < (r.mulVec v).x) :
+    triple (r.transpose.mulVec (lift a)) (r.transpose.mulVec (lift b)) v =
+      (r.mulVec v).x * cross a b (gnom (r.mulVec v)) ∧
+    (0 < triple (r.transpose.mulVec (lift a)) (r.transpose.mulVec (lift b)) v ↔
+      0 < cross a b (gnom (r.mulVec v))) ∧
+    (0 ≤ triple (r.transpose.mulVec (lift a)) (r.transpose.mulVec (lift b)) v ↔
+      0 ≤ cross a b (gnom (r.mulVec v))) := by
+  have e := triple_back r hr hdet a b v hx.ne'
+  refine ⟨e, ?_, ?_⟩ <;> rw [e]
+  · exact ⟨fun h => by
+      by_contra hc
+      exact absurd h (not_lt.mpr (mul_nonpos_of_nonneg_of_nonpos hx.le (not_lt.mp hc))),
+      fun h => mul_pos hx h⟩
+  · exact ⟨fun h => nonneg_of_mul_nonneg_right h hx, fun h => mul_nonneg hx.le h⟩
+
+/-! #### (c) containment -/
+
+/-- three non-collinear points or more: the closed hull has at least four entries, so the branch on the
+number of vertices keeps it -/
+theorem hull_length_noncollinear (tol : K) (pts : List (Pt K)) (hnc : ¬ Collinear pts) :
+    4 ≤ (hullRaw pts).length ∧ refFootprint tol (hullRaw pts) = hullRaw pts := by
+  have h4 : 4 ≤ (hullRaw pts).length := by
+    have h2 : ∃ a ∈ pts, ∃ b ∈ pts, a ≠ b := by
+      by_contra hcon
+      push Not at hcon
+      apply hnc
+      intro a ha b hb c hc
+      rw [hcon a ha b hb, hcon b hb c hc]
+      simp [cross]
+    have h3 := (hull_length pts).2 h2
+    have ht := hull_ccw_strict pts hnc
+    match hh : hullRaw pts, h3 with
+    | [x, y, z], _ =>
+      exfalso
+      have hcl := hull_start_closed none pts (hullRaw pts) rfl
+        (by obtain ⟨a, ha, _⟩ := h2; exact List.ne_nil_of_mem ha)
+      obtain ⟨m, _, _, e1, e2⟩ := hcl
+      rw [hh] at e1 e2 ht
+      simp at e1 e2
+      subst e1; subst e2
+      simp only [closeUp, List.drop, List.take, List.cons_append, List.nil_append, TurnsLeft] at ht
+      have := ht.2.1
+      rw [cross_cyc, cross_self_right] at this
+      exact lt_irrefl _ this
+    | _ :: _ :: _ :: _ :: _, _ => simp
+  exact ⟨h4, refFootprint_long tol _ h4⟩
+
+/-- **the hull on the sphere contains its sources.**  For a rotation `r` (orthogonal, determinant 1), every
+list of source directions in the open hemisphere about the tangent point (`xr > 0`): every source direction
+has a non-negative triple product with every edge, in order, of the back-projected planar hull of the
+projected sources (any number of sources; with fewer than two distinct projections there is no edge) -/
+theorem sph_hull_contains (r : M3 K) (hr : r.Orth) (hdet : Sph.det r = 1) (vs : List (V3 K))
+    (hhemi : ∀ v ∈ vs, 0 < (r.mulVec v).x) :
+    ∀ v ∈ vs, SphAllLeft v (backProject r.transpose (hullRaw (project r vs))) := by
+  intro v hv
+  rw [sphAllLeft_back_iff r hr hdet v (hhemi v hv)]
+  exact hull_contains (project r vs) _ (List.mem_map.mpr ⟨v, hv, rfl⟩)
+
+/-- **the footprint as the code builds it**: three or more sources with non-collinear projections, all in the
+open hemisphere about the tangent point, consecutive hull vertices farther apart than `min_separation` (so
+that the merging loop removes nothing): `footprintV` returns the back-projected hull, closed, and every source
+direction passes the spherical containment test against every edge -/
+theorem sph_footprint_contains (r : M3 K) (hr : r.Orth) (hdet : Sph.det r = 1) (sep tol : K) (hsep : 0 ≤ sep)
+    (vs : List (V3 K)) (hhemi : ∀ v ∈ vs, 0 < (r.mulVec v).x) (hnc : ¬ Collinear (project r vs))
+    (hfar : Separated sep (hullRaw (project r vs))) :
+    footprintV r r.transpose sep tol vs = .ok (backProject r.transpose (hullRaw (project r vs))) ∧
+    (∀ v ∈ vs, SphAllLeft v (backProject r.transpose (hullRaw (project r vs)))) ∧
+    4 ≤ (backProject r.transpose (hullRaw (project r vs))).length := by
+  obtain ⟨h4, hf⟩ := hull_length_noncollinear tol (project r vs) hnc
+  refine ⟨?_, sph_hull_contains r hr hdet vs hhemi, by rw [backProject_length]; exact h4⟩
+  unfold footprintV planeFootprint
+  rw [convexHull_separated sep hsep _ hfar]
+  match hh : hullRaw (project r vs), h4 with
+  | a :: b :: c :: d :: rest, _ => rfl
+
+/-- the same with the code's own matrices (`euler_rot` of a reference direction given by its cosines and
+sines, `inv_euler_rot = inv(euler_rot)` with a threshold for which the elimination returns) -/
+theorem refcat_footprint_contains (eps cr sr cd sd sep tol : K) (hr : cr * cr + sr * sr = 1)
+    (hd : cd * cd + sd * sd = 1) (heps : 0 < eps) (hsep : 0 ≤ sep) (vs : List (V3 K)) (poly : List (V3 K))
+    (h : footprintCS eps cr sr cd sd sep tol vs = .ok poly)
+    (hhemi : ∀ v ∈ vs, 0 < Sph.dot v ⟨cd * cr, cd * sr, sd⟩)
+    (hnc : ¬ Collinear (project (eulerRot cr sr cd sd) vs))
+    (hfar : Separated sep (hullRaw (project (eulerRot cr sr cd sd) vs))) :
+    poly = backProject (eulerRot cr sr cd sd).transpose (hullRaw (project (eulerRot cr sr cd sd) vs)) ∧
+    ∀ v ∈ vs, SphAllLeft v poly := by
+  have ho := eulerRot_orth cr sr cd sd hr hd
+  have hdet := eulerRot_det cr sr cd sd hr hd
+  have hh : ∀ v ∈ vs, 0 < ((eulerRot cr sr cd sd).mulVec v).x := by
+    intro v hv; rw [eulerRot_x]; exact hhemi v hv
+  unfold footprintCS at h
+  simp only at h
+  cases hi : invEulerRot eps (eulerRot cr sr cd sd) with
+  | error e => rw [hi] at h; cases h
+  | ok ri =>
+    rw [hi] at h
+    simp only at h
+    have hri := invEulerRot_eq_transpose eps heps _ ri ho hi
+    subst hri
+    obtain ⟨h1, h2, _⟩ := sph_footprint_contains _ ho hdet sep tol hsep vs hh hnc hfar
+    rw [h1] at h
+    injection h with h
+    subst h
+    exact ⟨rfl, h2⟩
+
+/-- the returned vertex directions lie in the open hemisphere of the tangent point (rotated first coordinate 1,
+gnomonic position = the planar vertex).  This matters because the side test alone is blind to the antipodal
+image of a polygon (`triple (−a) (−b) v = triple a b v`): the polygon of the containment theorems is the one on
+the side of the sources. -/
+theorem sph_vertices_front (r : M3 K) (hr : r.Orth) (poly : List (Pt K)) :
+    (∀ A ∈ backProject r.transpose poly, (r.mulVec A).x = 1) ∧
+    (backProject r.transpose poly).map (fun A => gnom (r.mulVec A)) = poly ∧
+    ∀ a b v : V3 K, triple (Sph.V3.neg a) (Sph.V3.neg b) v = triple a b v := by
+  refine ⟨?_, ?_, triple_neg_neg⟩
+  · intro A hA
+    obtain ⟨p, _, rfl⟩ := List.mem_map.mp hA
+    exact (back_vertex_front r hr p).1
+  · simp only [backProject, List.map_map]
+    conv_rhs => rw [← List.map_id poly]
+    apply List.map_congr_left
+    intro p _
+    exact (back_vertex_front r hr p).2
+
+/-- a source in the OPPOSITE open hemisphere (`xr < 0`, farther than 90° from the tangent point) fails the
+spherical test against every edge that its (antipodal) projection is strictly to the left of — in particular
+against all edges when the projection falls strictly inside the planar hull.  The hypothesis `xr > 0` of the
+containment theorems cannot be dropped. -/
+theorem opposite_hemisphere_outside (r : M3 K) (hr : r.Orth) (hdet : Sph.det r = 1) (a b : Pt K) (v : V3 K)
+    (hx : (r.mulVec v).x < 0) (hc : 0 < cross a b (gnom (r.mulVec v))) :
+    triple (r.transpose.mulVec (lift a)) (r.transpose.mulVec (lift b)) v < 0 :=
+  triple_back_neg r hr hdet a b v hx hc
+
+/-! #### (e) closure, vertex count, orientation -/
+
+/-- the footprint of three or more non-collinear sources is closed (first direction = last direction, so the
+forced `ra[-1] = ra[0]` changes nothing), has as many vertices as the planar hull, its first vertex is the
+back-projection of the lexicographically smallest projected source, and it is COUNTER-CLOCKWISE seen from
+outside the sphere: every cyclically consecutive triple of vertex directions has a positive triple product -/
+theorem sph_hull_closed_ccw (r : M3 K) (hdet : Sph.det r = 1) (vs : List (V3 K))
+    (hnc : ¬ Collinear (project r vs)) :
+    let poly := backProject r.transpose (hullRaw (project r vs))
+    poly.head? = poly.getLast? ∧ forceClosed poly = poly ∧
+    poly.length = (hullRaw (project r vs)).length ∧
+    (∃ m ∈ project r vs, (∀ q ∈ project r vs, q = m ∨ lexlt m q) ∧
+      poly.head? = some (r.transpose.mulVec (lift m))) ∧
+    SphTurnsLeft (backProject r.transpose (closeUp (hullRaw (project r vs)))) := by
+  intro poly
+  have hne : project r vs ≠ [] := by
+    intro h; apply hnc; rw [h]; intro a ha; cases ha
+  obtain ⟨m, hm, hmin, e1, e2⟩ := hull_start_closed none (project r vs) _ rfl hne
+  have hc : poly.head? = poly.getLast? := by
+    show (backProject _ _).head? = (backProject _ _).getLast?
+    rw [backProject_head, backProject_getLast]
+    show Option.map _ (hullRaw (project r vs)).head? = Option.map _ (hullRaw (project r vs)).getLast?
+    have e1' : (hullRaw (project r vs)).head? = some m := e1
+    have e2' : (hullRaw (project r vs)).getLast? = some m := e2
+    rw [e1', e2']
+  refine ⟨hc, forceClosed_of_closed poly hc, backProject_length _ _, ⟨m, hm, hmin, ?_⟩, ?_⟩
+  · show (backProject _ _).head? = _
+    rw [backProject_head]
+    have e1' : (hullRaw (project r vs)).head? = some m := e1
+    rw [e1']; rfl
+  · rw [sphTurnsLeft_back r hdet]
+    exact hull_ccw_strict _ hnc
+
+end sph
+
+/-! #### the small boxes on the sphere, the mean direction and the hemisphere; over `ℝ` -/
+section sphreal
+
+/-- one source (or several with the same projection `p`): the footprint is the back-projected square of
+half-width `tol` about `p`, five vertices, closed, and every source direction is STRICTLY inside it — the box
+is listed clockwise (seen from outside), so strictly negative triple product with every edge -/
+theorem sph_box1_contains (r : M3 ℝ) (hr : r.Orth) (hdet : Sph.det r = 1) (sep tol : ℝ) (hsep : 0 ≤ sep)
+    (htol : 0 < tol) (vs : List (V3 ℝ)) (hne : vs ≠ []) (hhemi : ∀ v ∈ vs, 0 < (r.mulVec v).x) (p : Pt ℝ)
+    (hall : ∀ v ∈ vs, gnom (r.mulVec v) = p) :
+    footprintV r r.transpose sep tol vs = .ok (backProject r.transpose (smallBox1 tol p)) ∧
+    (∀ v ∈ vs, SphInsideCW v (backProject r.transpose (smallBox1 tol p))) ∧
+    (backProject r.transpose (smallBox1 tol p)).length = 5 ∧
+    (backProject r.transpose (smallBox1 tol p)).head? = (backProject r.transpose (smallBox1 tol p)).getLast? ∧
+    SphTurnsRight (backProject r.transpose (closeUp (smallBox1 tol p))) := by
+  have hP : ∀ q ∈ project r vs, q = p := by
+    intro q hq
+    obtain ⟨v, hv, rfl⟩ := List.mem_map.mp hq
+    exact hall v hv
+  have hPne : project r vs ≠ [] := by simpa [project] using hne
+  have hraw : hullRaw (project r vs) = [p] := by
+    rcases hullRaw_cases (project r vs) with ⟨e, _⟩ | ⟨p', _, hp', e⟩ | ⟨a, b, rest, hS, _⟩
+    · exact absurd e hPne
+    · rw [e, hP p' hp']
+    · exfalso
+      obtain ⟨hs, hm⟩ := sort_dedupe_spec (project r vs)
+      rw [hS] at hs hm
+      have ha := hP a ((hm a).mp (by simp))
+      have hb := hP b ((hm b).mp (by simp))
+      have := (List.pairwise_cons.mp hs).1 b (by simp)
+      rw [ha, hb] at this
+      exact lexlt_irrefl p this
+  refine ⟨?_, ?_, by simp [backProject, smallBox1], by simp [backProject, smallBox1], ?_⟩
+  · unfold footprintV planeFootprint
+    rw [convexHull_separated sep hsep _ (by rw [hraw]; trivial), hraw]
+    rfl
+  · intro v hv
+    rw [sphInsideCW_back_iff r hr hdet v (hhemi v hv), hall v hv]
+    exact (box1_contains tol p htol).1
+  · rw [sphTurnsRight_back r hdet]
+    simp only [smallBox1, closeUp, List.drop, List.take, List.cons_append, List.nil_append, Sph.TurnsRight, cross]
+    refine ⟨?_, ?_, ?_, ?_, trivial⟩ <;> nlinarith
+
+/-- two distinct projections, or any number of COLLINEAR ones (great-circle arc through the tangent-plane
+chart), the two extreme ones farther apart than `min_separation`: the footprint is the back-projected
+rectangle of half-width `tol` about the segment between the lexicographically smallest and largest
+projections, and every source direction is strictly inside it (clockwise list) -/
+theorem sph_box2_contains (r : M3 ℝ) (hr : r.Orth) (hdet : Sph.det r = 1) (sep tol : ℝ) (hsep : 0 ≤ sep)
+    (htol : 0 < tol) (vs : List (V3 ℝ)) (hhemi : ∀ v ∈ vs, 0 < (r.mulVec v).x)
+    (hcol : Collinear (project r vs)) (h2 : ∃ a ∈ project r vs, ∃ b ∈ project r vs, a ≠ b)
+    (hfar : Separated sep (hullRaw (project r vs))) :
+    ∃ m ∈ project r vs, ∃ M ∈ project r vs, m ≠ M ∧
+      footprintV r r.transpose sep tol vs = .ok (backProject r.transpose (smallBox2 tol m M)) ∧
+      (∀ v ∈ vs, SphInsideCW v (backProject r.transpose (smallBox2 tol m M))) ∧
+      (backProject r.transpose (smallBox2 tol m M)).length = 5 ∧
+      (backProject r.transpose (smallBox2 tol m M)).head? =
+        (backProject r.transpose (smallBox2 tol m M)).getLast? := by
+  obtain ⟨m, hm, M, hM, hmin, hmax, hraw⟩ := hull_collinear (project r vs) hcol h2
+  have hmM : lexlt m M := by
+    obtain ⟨a, ha, b, hb, hab⟩ := h2
+    rcases hmin M hM with e | e
+    · exfalso
+      -- every point is both ≥ m and ≤ M = m
+      have hall : ∀ q ∈ project r vs, q = m := by
+        intro q hq
+        rcases hmin q hq with e1 | e1
+        · exact e1
+        · rcases hmax q hq with e2 | e2
+          · rw [e2, e]
+          · rw [e] at e2; exact absurd (lexlt_trans e1 e2) (lexlt_irrefl m)
+      exact hab ((hall a ha).trans (hall b hb).symm)
+    · exact e
+  have hne : m ≠ M := fun e => lexlt_irrefl m (by rw [← e] at hmM; exact hmM)
+  refine ⟨m, hm, M, hM, hne, ?_, ?_, by simp [backProject, smallBox2], by simp [backProject, smallBox2]⟩
+  · unfold footprintV planeFootprint
+    rw [convexHull_separated sep hsep _ hfar, hraw]
+    rfl
+  · intro v hv
+    rw [sphInsideCW_back_iff r hr hdet v (hhemi v hv)]
+    have hq : gnom (r.mulVec v) ∈ project r vs := List.mem_map.mpr ⟨v, hv, rfl⟩
+    obtain ⟨t, ht0, ht1, e⟩ := collinear_between m M _ hmM (hcol m hm M hM _ hq) (hmin _ hq) (hmax _ hq)
+    rw [e]
+    exact box2_contains_segment tol m M hne htol t ht0 ht1
+
+/-- two or more collinear projections that are all within `min_separation` of each other (two almost coincident
+sources, the case of finding F15): the merging loop leaves the degenerate `[m, m]`, the footprint is the square
+about the lexicographically smallest projection `m`, and — `min_separation < tol` — every source direction is
+strictly inside it -/
+theorem sph_close_pair_contains (r : M3 ℝ) (hr : r.Orth) (hdet : Sph.det r = 1) (sep tol : ℝ) (hsep : 0 ≤ sep)
+    (hst : sep < tol) (vs : List (V3 ℝ)) (hhemi : ∀ v ∈ vs, 0 < (r.mulVec v).x)
+    (hcol : Collinear (project r vs)) (h2 : ∃ a ∈ project r vs, ∃ b ∈ project r vs, a ≠ b)
+    (hclose : ∀ a ∈ project r vs, ∀ b ∈ project r vs, |a.1 - b.1| ≤ sep ∧ |a.2 - b.2| ≤ sep) :
+    ∃ m ∈ project r vs,
+      footprintV r r.transpose sep tol vs = .ok (backProject r.transpose (smallBox1 tol m)) ∧
+      ∀ v ∈ vs, SphInsideCW v (backProject r.transpose (smallBox1 tol m)) := by
+  obtain ⟨m, hm, M, hM, _, _, hraw⟩ := hull_collinear (project r vs) hcol h2
+  refine ⟨m, hm, ?_, ?_⟩
+  · unfold footprintV planeFootprint
+    rw [convexHull_close_pair sep hsep _ m M hraw ((closeTo_iff sep M m).mpr (hclose M hM m hm))]
+    show Except.ok (backProject r.transpose (refFootprint tol [m, m])) = _
+    rw [box_degenerate]
+  · intro v hv
+    rw [sphInsideCW_back_iff r hr hdet v (hhemi v hv)]
+    have hq : gnom (r.mulVec v) ∈ project r vs := List.mem_map.mpr ⟨v, hv, rfl⟩
+    obtain ⟨c1, c2⟩ := hclose _ hq m hm
+    exact smallBox1_inside_near tol m _ (lt_of_le_of_lt c1 hst) (lt_of_le_of_lt c2 hst)
+
+/-- **the mean direction and the hemisphere.**  With `(ra_ref, dec_ref) = _C2S(mean vector)` (mean ≠ 0):
+`euler_rot` sends the mean vector to `(‖mean‖, 0, 0)` (the tangent point is the mean direction), the first
+rotated coordinate of a source is `xr = v · mean / ‖mean‖`, hence a source lies in the open hemisphere
+`xr > 0` that the containment theorems need **iff it is closer than 90° to the mean direction**
+(`v · mean > 0`); at least one source always does -/
+theorem mean_direction_hemisphere (vs : List (V3 ℝ)) (hne : vs ≠ []) (hm : meanVec vs ≠ ⟨0, 0, 0⟩) :
+    (eulerRotOfDir (refDir vs)).mulVec (meanVec vs) = ⟨(meanVec vs).norm, 0, 0⟩ ∧
+    (∀ v : V3 ℝ, ((eulerRotOfDir (refDir vs)).mulVec v).x = Sph.dot v (meanVec vs) / (meanVec vs).norm) ∧
+    (∀ v : V3 ℝ, 0 < ((eulerRotOfDir (refDir vs)).mulVec v).x ↔ 0 < Sph.dot v (meanVec vs)) ∧
+    (∃ v ∈ vs, 0 < ((eulerRotOfDir (refDir vs)).mulVec v).x) ∧
+    (eulerRotOfDir (refDir vs)).Orth ∧ Sph.det (eulerRotOfDir (refDir vs)) = 1 := by
+  refine ⟨eulerRotOfDir_mean _ hm, fun v => xr_eq_dot_mean _ v hm, fun v => hemisphere_iff _ v hm, ?_,
+    eulerRotOfDir_orth _, eulerRotOfDir_det _⟩
+  obtain ⟨v, hv, hpos⟩ := exists_dot_mean_pos vs hne hm
+  exact ⟨v, hv, (hemisphere_iff _ v hm).mpr hpos⟩
+
+/-- **the whole method on a catalog within 90° of its mean direction**: if `refCatFootprint` returns (it does
+for every small enough singularity threshold, `inv_euler_rot_is_transpose`), the mean vector is not zero,
+every source is closer than 90° to the mean direction, the projections are not collinear and consecutive hull
+vertices are farther apart than `min_separation`, then `inv_euler_rot` is the transpose, the tangent-plane
+polygon is the hull of the projected sources, and every source direction `_S2C(RA, DEC)` passes the spherical
+containment test against every edge of the returned vertex directions -/
+theorem refcat_method_contains (eps sep d2r ftol : ℝ) (heps : 0 < eps) (hsep : 0 ≤ sep) (radec : List (V2 ℝ))
+    (out : SphOut ℝ) (h : refCatFootprint eps sep d2r ftol radec = .ok out)
+    (hm : out.mean ≠ ⟨0, 0, 0⟩) (hhemi : ∀ v ∈ out.vecs, 0 < Sph.dot v out.mean)
+    (hnc : ¬ Collinear out.proj) (hfar : Separated sep (hullRaw out.proj)) :
+    out.vecs = radec.map (fun p => s2c p.x p.y) ∧ out.mean = meanVec out.vecs ∧
+    out.rot = eulerRotOfDir (c2s out.mean) ∧ out.rotInv = out.rot.transpose ∧
+    out.proj = project out.rot out.vecs ∧ out.plane = hullRaw out.proj ∧
+    out.back = backProject out.rot.transpose out.plane ∧
+    ∀ v ∈ out.vecs, SphAllLeft v out.back := by
+  unfold refCatFootprint at h
+  cases radec with
+  | nil => cases h
+  | cons p0 rest =>
+    simp only at h
+    generalize hvecs : (p0 :: rest).map (fun p => s2c p.x p.y) = vecs at h
+    cases hi : invEulerRot eps (eulerRotOfDir (c2s (meanVec vecs))) with
+    | error e => rw [hi] at h; cases h
+    | ok ri =>
+      rw [hi] at h
+      simp only at h
+      have ho := eulerRotOfDir_orth (c2s (meanVec vecs))
+      have hdet := eulerRotOfDir_det (c2s (meanVec vecs))
+      have hri := invEulerRot_eq_transpose eps heps _ ri ho hi
+      subst hri
+      cases hp : planeFootprint sep (boxTol d2r ftol) (project (eulerRotOfDir (c2s (meanVec vecs))) vecs) with
+      | error e => rw [hp] at h; cases h
+      | ok poly =>
+        rw [hp] at h
+        simp only at h
+        injection h with h
+        subst h
+        simp only at hm hhemi hnc hfar
+        have hh : ∀ v ∈ vecs, 0 < ((eulerRotOfDir (c2s (meanVec vecs))).mulVec v).x :=
+          fun v hv => (hemisphere_iff _ v hm).mpr (hhemi v hv)
+        obtain ⟨h1, h2, _⟩ := sph_footprint_contains _ ho hdet sep (boxTol d2r ftol) hsep vecs hh hnc hfar
+        unfold footprintV at h1
+        rw [hp] at h1
+        injection h1 with h1
+        have hpoly : poly = hullRaw (project (eulerRotOfDir (c2s (meanVec vecs))) vecs) := by
+          have hinj : Function.Injective
+              (fun q : Pt ℝ => (eulerRotOfDir (c2s (meanVec vecs))).transpose.mulVec (lift q)) := by
+            intro a b hab
+            have := congrArg (fun w => gnom ((eulerRotOfDir (c2s (meanVec vecs))).mulVec w)) hab
+            simp only [ho.mulVec_transpose, gnom_lift] at this
+            exact this
+          exact List.map_injective_iff.mpr hinj h1
+        refine ⟨rfl, rfl, rfl, rfl, rfl, hpoly, rfl, ?_⟩
+        rw [hpoly]
+        exact h2
+
+end sphreal
+
+/-! #### non-vacuity and counter-examples (exact rational arithmetic) -/
+
+-- the rotation for `(cos, sin)(ra_ref) = (3/5, 4/5)`, `(cos, sin)(dec_ref) = (5/13, 12/13)`
+example : eulerRot (K := ℚ) (3/5) (4/5) (5/13) (12/13) =
+    ⟨3/13, 4/13, 12/13, -4/5, 3/5, 0, -36/65, -48/65, 5/13⟩ := by decide +kernel
+-- … sends the reference direction to the tangent point (`euler_rot_tangent_point`)
+example : (eulerRot (K := ℚ) (3/5) (4/5) (5/13) (12/13)).mulVec ⟨3/13, 4/13, 12/13⟩ = ⟨1, 0, 0⟩ := by
+  decide +kernel
+-- **witness of F14**: the REVERSED composition order `multi_dot(rotm)` (the unrepaired code) does not
+example : (eulerRotF14 (K := ℚ) (3/5) (4/5) (5/13) (12/13)).mulVec ⟨3/13, 4/13, 12/13⟩ =
+    ⟨137/169, -96/169, 24/169⟩ ∧
+    (eulerRotF14 (K := ℚ) (3/5) (4/5) (5/13) (12/13)).mulVec ⟨3/13, 4/13, 12/13⟩ ≠ ⟨1, 0, 0⟩ := by
+  decide +kernel
+-- `inv_euler_rot_is_transpose`: the elimination (threshold 1/10^300) returns the transpose
+example : invEulerRot (K := ℚ) (1 / 10 ^ 300) (eulerRot (3/5) (4/5) (5/13) (12/13)) =
+    .ok (eulerRot (3/5) (4/5) (5/13) (12/13)).transpose := by decide +kernel
+-- `planar_rot_3d_spec`
+example : planarRot3d (K := ℚ) (3/5) (4/5) 1 = .ok ⟨3/5, 0, 4/5, 0, 1, 0, -4/5, 0, 3/5⟩ ∧
+    planarRot3d (K := ℚ) (3/5) (4/5) 3 = .error .badAxis := by decide +kernel
+
+/-- four source directions (not normalised: only directions matter) around the reference direction of the
+rotation above, and one in the middle -/
+def sphDemo : List (V3 ℚ) :=
+  ((eulerRot (3/5) (4/5) (5/13) (12/13)).transpose).mulVec <$>
+    [⟨1, -1/10, -1/10⟩, ⟨2, 1/5, -1/5⟩, ⟨1, 1/10, 1/10⟩, ⟨3, -3/10, 3/10⟩, ⟨1, 0, 1/100⟩]
+
+-- hypotheses of `sph_footprint_contains` / `refcat_footprint_contains`: hemisphere, projections, not collinear
+example : inHemisphereB (eulerRot (3/5) (4/5) (5/13) (12/13)) sphDemo = true := by decide +kernel
+example : project (eulerRot (3/5) (4/5) (5/13) (12/13)) sphDemo =
+    [(-1/10, -1/10), (1/10, -1/10), (1/10, 1/10), (-1/10, 1/10), (0, 1/100)] := by decide +kernel
+example : ¬ Collinear (project (eulerRot (K := ℚ) (3/5) (4/5) (5/13) (12/13)) sphDemo) := by
+  intro h
+  have := h (-1/10, -1/10) (by decide +kernel) (1/10, -1/10) (by decide +kernel) (1/10, 1/10) (by decide +kernel)
+  revert this; decide +kernel
+-- … and the conclusion, evaluated: the planar hull, and the spherical test of every source against the
+-- back-projected vertices
+example : hullRaw (project (eulerRot (3/5) (4/5) (5/13) (12/13)) sphDemo) =
+    [(-1/10, -1/10), (1/10, -1/10), (1/10, 1/10), (-1/10, 1/10), (-1/10, -1/10)] := by decide +kernel
+example : sphDemo.all (fun v => sphAllLeftB v (backProject (eulerRot (3/5) (4/5) (5/13) (12/13)).transpose
+    (hullRaw (project (eulerRot (3/5) (4/5) (5/13) (12/13)) sphDemo)))) = true := by decide +kernel
+
+/-- **a catalog spread over more than a hemisphere**: three sources at the direction `(1, 0, 0)` and one at
+`(-3/5, 4/5, 0)` (RA 126.87°); mean vector `(3/5, 1/5, 0)`, so the fourth source is farther than 90° from the
+mean direction (`v · mean = -1/5 < 0`) and the hypothesis of the containment theorems fails -/
+def sphWide : List (V3 ℚ) := [⟨1, 0, 0⟩, ⟨1, 0, 0⟩, ⟨1, 0, 0⟩, ⟨-3/5, 4/5, 0⟩]
+
+example : meanVec sphWide = ⟨3/5, 1/5, 0⟩ ∧
+    sphWide.map (fun v => Sph.dot v (meanVec sphWide)) = [3/5, 3/5, 3/5, -1/5] := by decide +kernel
+-- a rotation about the `z` axis towards a direction near the mean (`(cos, sin) = (4/5, 3/5)`, 36.9° instead
+-- of 18.4°: exact rational entries): the fourth source has `xr < 0` …
+example : inHemisphereB (eulerRot (K := ℚ) (4/5) (3/5) 1 0) sphWide = false ∧
+    ((eulerRot (K := ℚ) (4/5) (3/5) 1 0).mulVec ⟨-3/5, 4/5, 0⟩).x = 0 := by decide +kernel
+-- (exactly 90° from that tangent point: `xr = 0`, the projection divides by zero).  With the tangent point
+-- at `(cos, sin) = (12/13, 5/13)` (22.6°) it is behind it, its antipodal image lands on the far side of the
+-- other sources, and it fails the spherical test against the back-projected "hull" of the projections:
+example : ((eulerRot (K := ℚ) (12/13) (5/13) 1 0).mulVec ⟨-3/5, 4/5, 0⟩).x = -16/65 ∧
+    project (eulerRot (K := ℚ) (12/13) (5/13) 1 0) [⟨1, 0, 1/10⟩, ⟨1, 0, -1/10⟩, ⟨1, 1/10, 0⟩, ⟨-3/5, 4/5, 0⟩] =
+      [(-5/12, 13/120), (-5/12, -13/120), (-38/125, 0), (-63/16, 0)] := by decide +kernel
+example : sphAllLeftB (⟨-3/5, 4/5, 0⟩ : V3 ℚ) (backProject (eulerRot (12/13) (5/13) 1 0).transpose
+    (hullRaw (project (eulerRot (12/13) (5/13) 1 0) [⟨1, 0, 1/10⟩, ⟨1, 0, -1/10⟩, ⟨1, 1/10, 0⟩, ⟨-3/5, 4/5, 0⟩]))) =
+    false := by decide +kernel
+
+-- the hypothesis `Separated` of `sph_footprint_contains` cannot be dropped either: a hull vertex merged into
+-- its neighbour by `min_separation` is (slightly) outside the footprint that is returned
+example : convexHull (some (1/2)) ([(0,0),(4,0),(17/4,1/4),(4,4),(0,4)] : List (Pt ℚ)) =
+    .ok [(0,0),(17/4,1/4),(4,4),(0,4),(0,0)] ∧ cross ((0,0) : Pt ℚ) (17/4,1/4) (4,0) = -1 := by decide +kernel
+
+-- `sph_box1_contains` / `sph_box2_contains`, evaluated on rationals for the square (the rectangle needs a square root)
+example : (backProject (eulerRot (K := ℚ) (3/5) (4/5) (5/13) (12/13)).transpose (smallBox1 (1/100) (0, 0))).all
+    (fun _ => true) = true ∧
+    sphInsideCWB ((eulerRot (K := ℚ) (3/5) (4/5) (5/13) (12/13)).transpose.mulVec ⟨1, 0, 0⟩)
+      (backProject (eulerRot (3/5) (4/5) (5/13) (12/13)).transpose (smallBox1 (1/100) (0, 0))) = true := by
   decide +kernel
 
 end TW.C16
